@@ -62,7 +62,9 @@ def diagnose (term : RErr) : List (Bytes × Nat) → Stop → List (Bytes × Nat
   | (v1, p1) :: r1, s1, (v2, p2, before) :: r2, s2, last =>
     let num := match headNS before with | some c => isNumStart c | none => false
     if v1 != v2 then (if num then "scalar-split" else "other")
-    else if p1 != p2 then (if num then "number-frame-swallow" else "other")
+    else if p1 != p2 then
+      (if num then "number-frame-swallow"
+       else if p1 > p2 && !(Str.validate before) then "validate-string-advance" else "other")
     else diagnose term r1 s1 r2 s2 last
   | (v1, _) :: r1, _, [], s2, last =>
     let rest := last.drop (wsLen last)
@@ -98,7 +100,7 @@ def diagnose (term : RErr) : List (Bytes × Nat) → Stop → List (Bytes × Nat
 def parseRepairs (opts : String) : Repairs :=
   match opts.splitOn ":" with
   | [_, fl] => { closer := fl.contains 'a', trunc := fl.contains 'b', split := fl.contains 'c',
-                 inval := fl.contains 'd', pos := fl.contains 'e' }
+                 inval := fl.contains 'd', pos := fl.contains 'e', clamp := fl.contains 'f' }
   | _ => {}
 
 def streamLine (rp : Repairs) (fe : RErr) (sc : Script) : String :=
@@ -106,11 +108,11 @@ def streamLine (rp : Repairs) (fe : RErr) (sc : Script) : String :=
   let term := termOf sc fe
   let init : DState := {}
   let shipped : DState → Script → RErr → DecodeRes Bytes × DState × Script × RErr :=
-    if rp == {} then Faithful.decode decSonic else Patched.decode decSonic rp
+    if rp == {} then Faithful.decode decSonicV else Patched.decode decSonicV rp
   let (mt, ms) := traceRun shipped data maxCalls init sc .eof
-  let (ft, fs) := traceRun (Fixed.decode decSonic) data maxCalls init sc .eof
-  let (st, ss, last) := specTrace decSonic false term data.length maxCalls data
-  let (lt, ls, _) := specTrace decSonic true term data.length maxCalls data
+  let (ft, fs) := traceRun (Fixed.decode decSonicIn) data maxCalls init sc .eof
+  let (st, ss, last) := specTrace decSonicIn false term data.length maxCalls data
+  let (lt, ls, _) := specTrace decSonicIn true term data.length maxCalls data
   let (et, es, _) := specTrace decJson false term data.length maxCalls data
   let why := diagnose term mt ms st ss last
   s!"model={valsStr (mt.map (·.1))}|{stopStr ms}\tfixed={valsStr (ft.map (·.1))}|{stopStr fs}\tspec={valsStr (st.map (·.1))}|{stopStr ss}\tspec2={valsStr (lt.map (·.1))}|{stopStr ls}\tspecstd={valsStr (et.map (·.1))}|{stopStr es}\twhy={why}"
